@@ -284,7 +284,27 @@ class Container:
 
     def fillnumpy(self, data, weights=1.0):
         self._checkForCrossReferences()
-        self._numpy(data, weights, shape=[None])
+        self._numpy(data, weights, shape=[self._batchLength(data, weights)])
+
+    @staticmethod
+    def _batchLength(data, weights):
+        """Number of rows, when the input says so itself (else None: the first quantity decides).
+
+        A Count that a collection visits before any quantity-bearing node needs it to turn a scalar
+        weight into weight * rows.
+        """
+        if isinstance(weights, numpy.ndarray) and len(weights.shape) == 1:
+            return weights.shape[0]
+        if isinstance(data, dict):
+            lengths = {v.shape[0] for v in data.values() if isinstance(v, numpy.ndarray) and len(v.shape) == 1}
+            if len(lengths) == 1 and len(data) > 0 and all(isinstance(v, numpy.ndarray) for v in data.values()):
+                return lengths.pop()
+            return None
+        if isinstance(data, numpy.ndarray) and len(data.shape) == 1:
+            return data.shape[0]
+        if hasattr(data, "columns") and hasattr(data, "shape") and len(data.shape) == 2:
+            return data.shape[0]  # pandas DataFrame
+        return None
 
     def _checkNPQuantity(self, q, shape):
         if isinstance(q, (list, tuple)):
